@@ -17,14 +17,14 @@ def sw(r, *names): return sum(r.get('probes', {}).get(n, 0) for n in names)
 
 PROPS = {
  'C01': {
-   'families': [('c01_random', 5, ALLU), ('c01_pagecycle', 2, ALLU), ('c01_pagequeue', 3, ALLU), ('c01_spanchurn', 2, ALLU), ('c01_huge', 1.5, ALLU), ('c01_zerosize', 0.5, ALL)],
+   'families': [('c01_random', 5, ALLU), ('c01_pagecycle', 2, ALLU), ('c01_pagequeue', 3, ALLU), ('c01_pageedge', 1.5, ALLU), ('c01_spanchurn', 2, ALLU), ('c01_huge', 1.5, ALLU), ('c01_zerosize', 0.5, ALL)],
    'runs': {'quick': 3000, 'thorough': 150000},
    'rule': 'plans are generated from hash(VERIF_SEED, family, i); a run is non-trivial if it executed >= 20 allocation calls and >= 5 frees; distinct = distinct hash of all API results (addresses, sizes)',
    'nontrivial': lambda r: r.get('allocs', 0) >= 20 and r.get('frees', 0) >= 5, 'distinct_by': 'api+sched',
  },
  'C02': {
-   'families': [('c02_pingpong', 5, ALL), ('c02_ownercollect', 3, ALL), ('c02_manypushers', 3, ALL), ('c02_hugeremote', 2, ALL), ('c02_forceabandon', 3, ALL), ('c09_collect_race', 2, ALL)],
-   'runs': {'quick': 3000, 'thorough': 150000},
+   'families': [('c02_pingpong', 5, ALL), ('c02_ownercollect', 3, ALL), ('c02_manypushers', 3, ALL), ('c02_hugeremote', 2, ALL), ('c02_forceabandon', 3, ALL), ('c09_collect_race', 2, ALL), ('c09_adopt_race', 2, ALL)],
+   'runs': {'quick': 3300, 'thorough': 150000},
    'rule': 'non-trivial = at least one context switch inside mi_free_block_delayed_mt (between its CASes), _mi_page_thread_free_collect or _mi_heap_delayed_free_partial; distinct = distinct (API result hash, hash of the (thread, site) sequence at context switches inside hot functions)',
    'nontrivial': lambda r: sw(r, 'switch_in_free_mt', 'switch_in_tf_collect', 'switch_in_delayed_partial') > 0,
    'must_reach': ['switch_in_free_mt', 'switch_in_tf_collect', 'free_mt_cas_retry', 'tf_collect_cas_retry', 'delayed_freeing_observed', 'spurious_cas_injected'],
